@@ -361,46 +361,48 @@ def rec_reaches_self(F, fid, depth=3):
     return False
 
 
-def stores_result(F, f, owner):
-    """The raw pointer is assigned to a member / link, or returned to a caller in the class that assigns it."""
+def stores_result(F, f, owner, producer_ids=None, depth=0):
+    """The raw pointer is assigned to a member / link (possibly through a pointer to the link), or handed to a caller in the class
+    that does so: followed through local variables and through helpers that return it (bounded depth)."""
     body = f.get('body')
     inits = f.get('inits') or []
+    producer_ids = producer_ids or set()
+
+    def produces(m):
+        c = m.get('callee') or {}
+        return m.get('k') == 'call' and (c.get('name') in ALLOC_NAMES or c.get('id') in producer_ids)
     # constructor initialiser `mem(static_cast<pool*>(operator new(...)))`
     for i in inits:
-        if i['kind'] == 'member' and any(n.get('k') == 'call' and (n.get('callee') or {}).get('name') in ALLOC_NAMES for n in walk(i['e'])):
+        if i['kind'] == 'member' and any(produces(n) for n in walk(i['e'])):
             return True
     alloc_vars = set()
-    returned = False
-    for n in walk(body):
-        if n.get('k') == 'decl':
-            for v in n['vars']:
-                if any(m.get('k') == 'call' and (m.get('callee') or {}).get('name') in ALLOC_NAMES for m in walk(v.get('init'))):
-                    alloc_vars.add(v['id'])
-    stored = False
+    for _round in range(3):
+        for n in walk(body):
+            if n.get('k') == 'decl':
+                for v in n['vars']:
+                    if any(produces(m) or (m.get('k') == 'ref' and m.get('kind') == 'local' and m.get('id') in alloc_vars) for m in walk(v.get('init'))):
+                        alloc_vars.add(v['id'])
+            if n.get('k') == 'binop' and n.get('op') == '=' and strip_casts(n['l']).get('k') == 'ref' and strip_casts(n['l']).get('kind') == 'local':
+                if any(produces(m) or (m.get('k') == 'ref' and m.get('kind') == 'local' and m.get('id') in alloc_vars) for m in walk(n['r'])):
+                    alloc_vars.add(strip_casts(n['l']).get('id'))
+    stored = returned = False
     for n in walk(body):
         if n.get('k') == 'binop' and n.get('op') == '=':
-            rhs_ids = {m.get('id') for m in walk(n['r']) if m.get('k') == 'ref' and m.get('kind') == 'local'}
+            carries = any(produces(m) or (m.get('k') == 'ref' and m.get('kind') == 'local' and m.get('id') in alloc_vars) for m in walk(n['r']))
             lhs = strip_casts(n['l'])
-            if rhs_ids & alloc_vars and (lhs.get('k') == 'member' or any(m.get('k') == 'member' for m in walk(lhs))):
+            into_link = lhs.get('k') == 'member' or any(m.get('k') == 'member' for m in walk(lhs)) or \
+                (lhs.get('k') == 'unop' and lhs.get('op') == '*') or (lhs.get('k') == 'call')      # *slot = n ;  x->left() = n
+            if carries and into_link:
                 stored = True
         if n.get('k') == 'return':
-            ids = {m.get('id') for m in walk(n.get('e')) if m.get('k') == 'ref' and m.get('kind') == 'local'}
-            if ids & alloc_vars:
+            if any(produces(m) or (m.get('k') == 'ref' and m.get('kind') == 'local' and m.get('id') in alloc_vars) for m in walk(n.get('e'))):
                 returned = True
     if stored:
         return True
-    if returned:
-        # every caller inside the class stores the result into a link
+    if returned and depth < 3:
         callers = [g for g in F.fn.values() if (g.get('parent') or '') == owner and g['id'] != f['id'] and
                    any((n.get('callee') or {}).get('id') == f['id'] for n in walk(g.get('body')) if n.get('k') == 'call')]
         if not callers:
             return False
-        ok = True
-        for g in callers:
-            found = False
-            for n in walk(g.get('body')):
-                if n.get('k') == 'binop' and n.get('op') == '=' and any((m.get('callee') or {}).get('id') == f['id'] for m in walk(n['r']) if m.get('k') == 'call'):
-                    found = True
-            ok = ok and found
-        return ok
+        return all(stores_result(F, g, owner, producer_ids | {f['id']}, depth + 1) for g in callers)
     return False
